@@ -87,6 +87,33 @@ def run_estimates(el, feed, call, client=None, want_client=False, shared_model_p
     return res, exc
 
 
+def run_estimates_shared(el, feed, call, client, objs):
+    """Like run_estimates but hands over the caller's OWN objects (no copies): objs = dict(feed, config, pre,
+    model_parameters, estimands, prediction_intervals, aggregates, features, fixed_effects) created once by the caller
+    and reused for several calls, as a long-running service would do."""
+    kwargs = dict(features=objs["features"], aggregates=objs["aggregates"], fixed_effects=objs["fixed_effects"],
+                  pi_method=call["pi_method"], save_output=objs["save_output"],
+                  handle_unreporting=call["handle_unreporting"])
+    res, exc = None, None
+    try:
+        res = client.get_estimates(
+            objs["feed"], el.election_id, el.office, objs["estimands"], prediction_intervals=objs["prediction_intervals"],
+            percent_reporting_threshold=call["percent_reporting_threshold"], geographic_unit_type=el.geo_type,
+            raw_config=objs["config"], preprocessed_data=objs["pre"], model_parameters=objs["model_parameters"], **kwargs)
+    except Exception as e:  # noqa: BLE001
+        e._verif_tb = traceback.format_exc()
+        exc = e
+    return res, exc
+
+
+def shared_objects(el, feed, call):
+    c = copy.deepcopy(call)
+    return dict(feed=feed.copy(deep=True), config=copy.deepcopy(el.config), pre=el.pre.copy(deep=True),
+                model_parameters=c["model_parameters"], estimands=c["estimands"],
+                prediction_intervals=c["prediction_intervals"], aggregates=c["aggregates"], features=c["features"],
+                fixed_effects=c["fixed_effects"], save_output=c["save_output"])
+
+
 def exc_info(exc):
     if exc is None:
         return None
